@@ -13,7 +13,7 @@ theorem advance_steps (cfg : Cfg) (w : Store) (c : Ctr) (cons : Int) (w' : Store
   case case1 => rw [ok_fst h]; exact .refl _
   case case2 => cases h
   case case3 => cases h
-  case case4 ih => rename_i hw; exact (Steps.single hw).trans (ih h)
+  case case4 ih => rename_i hw _; exact (Steps.single hw).trans (ih h)
   case case5 ih => exact ih h
   case case6 => rw [ok_fst h]; exact .refl _
   case case7 => cases h
